@@ -1,8 +1,9 @@
 #!/bin/bash
-# usage: seedcheck.sh <dir-with-m*/patch.diff> <prop> [more props]
+# usage: seedcheck.sh <dir-with-m*/patch.diff | "quoted glob of mutant dirs"> <prop> [more props]
 # applies each candidate change to a scratch copy of /repo and reports whether `govc check --prop` raises a VIOLATION
 src=$1; shift
-for m in $src/m*/; do
+if [ -d "$src" ]; then list=$(ls -d $src/m*/); else list=$(ls -d $src); fi
+for m in $list; do m=$(realpath $m)
   d=$(mktemp -d /tmp/seedchk.XXXXXX)
   rsync -a --exclude .git /repo/ $d/
   if ! (cd $d && patch -p1 -s < $m/patch.diff); then echo "$(basename $m): PATCH-FAILED"; rm -rf $d; continue; fi
